@@ -9,6 +9,7 @@ the server answers and the workers run) and every site/filter instantiation
 `Cfg.visit`.
 -/
 import Proofs.Lemmas.CrawlAcct
+import Proofs.Lemmas.CrawlTerm
 namespace Wpull.Crawl
 
 variable {c : Cfg} {conc : Nat} {starts : List Url} {s : St}
@@ -186,6 +187,34 @@ theorem complete_exactly_once {acc : Url → Bool} {links : Url → List Child} 
   constructor
   · intro hc; rw [if_pos (hcond.mpr hc)]
   · intro hc; rw [if_neg (fun h' => hc (hcond.mp h'))]
+
+/-- **C01 (termination)** A failure-free crawl of a finite site always ends: if every offered link
+lies in a finite universe `U` (the site's URLs) and a visit sends at most `R` requests, then EVERY
+crash-free run — any number of workers, any schedule — has at most `(R + 3) · |U|` steps.  So the
+crawl cannot run forever; when no step is enabled it is quiescent (`all_final`). -/
+theorem terminates (hn : c.NoFail) (R : Nat) (hR : ∀ r, (c.visit r).requests.length ≤ R)
+    (U : List Url) (hS : ∀ u ∈ starts, u ∈ U) (hK : ∀ r k, k ∈ (c.visit r).children → k.url ∈ U)
+    (es : List Ev) (hes : ∀ e ∈ es, e ≠ .crash ∧ e ≠ .restart)
+    (hrun : run c conc starts (init starts) es = some s) : es.length ≤ (R + 3) * U.length := by
+  have hw := hn.wf
+  have hN : ReachN c conc starts s (0 + es.length) := reachN_of_run es hes .init hrun
+  have hreach := hN.reach
+  have h1 := steps_account hw hN
+  have h2 := log_length hw hreach
+  have h3 : sumOver (fun o => (c.visit o).requests.length) s.outs ≤ R * s.outs.length :=
+    sumOver_le _ R _ (fun o _ => hR o)
+  have hb := reach_invB hw hreach
+  have h4 : (urls s.outs).length ≤ U.length := by
+    apply nodup_length_le _ _ (visit_once hn hreach)
+    intro u hu
+    obtain ⟨o, ho, e⟩ := mem_urls.mp hu
+    exact table_sub_universe U hS hK hreach u (e ▸ (hb.outsIn o ho).1)
+  have h5 : (urls s.outs).length = s.outs.length := by simp [urls]
+  have h6 : s.log.length ≤ R * s.outs.length := by omega
+  have h7 : es.length ≤ (R + 3) * s.outs.length := by
+    rw [Nat.add_mul]; omega
+  calc es.length ≤ (R + 3) * s.outs.length := h7
+    _ ≤ (R + 3) * U.length := Nat.mul_le_mul_left _ (by omega)
 
 /-! ## Non-vacuity: a concrete diamond site with a cycle, two workers -/
 
